@@ -4,6 +4,7 @@ import (
 	"bytes"
 	"context"
 	"fmt"
+	"os"
 	"reflect"
 	"strings"
 	"time"
@@ -482,6 +483,33 @@ var sqliteFactory = vaultFactory{name: "sqlite", new: func(ctx context.Context, 
 	return sqlite.New(ctx, fmt.Sprintf("enum-%d", sqliteSeq), reg, sqlite.WithInMemory())
 }}
 
+// sqliteFileFactory: the same store on a file (WAL mode, the store's own connection pool for files) in a directory of
+// its own, which dropVault removes again. Used where the backing matters (C14's create/delete sequences).
+var sqliteFileDirs = map[storage.Vault]string{}
+
+var sqliteFileFactory = vaultFactory{name: "sqlite-file", new: func(ctx context.Context, reg *registry.Register) (storage.Vault, error) {
+	dir, err := os.MkdirTemp("", "verif-c14-file-")
+	if err != nil {
+		return nil, err
+	}
+	v, err := sqlite.New(ctx, dir, reg)
+	if err != nil {
+		os.RemoveAll(dir)
+		return nil, err
+	}
+	sqliteFileDirs[v] = dir
+	return v, nil
+}}
+
+// dropVault closes a vault and removes what its factory created on disk.
+func dropVault(ctx context.Context, v storage.Vault) {
+	v.Close(ctx)
+	if dir, ok := sqliteFileDirs[v]; ok {
+		delete(sqliteFileDirs, v)
+		os.RemoveAll(dir)
+	}
+}
+
 func vaultFactories() []vaultFactory {
 	fs := []vaultFactory{sqliteFactory}
 	if cosmosFactory != nil {
@@ -550,7 +578,7 @@ type storeCase struct {
 func (c storeCase) String() string { return fmt.Sprintf("%s %s ops=%v", c.Vault, c.Shape, c.Ops) }
 
 func factoryByName(name string) *vaultFactory {
-	for _, f := range append(vaultFactories(), cosmosPagedFactories...) {
+	for _, f := range append(append(vaultFactories(), cosmosPagedFactories...), sqliteFileFactory) {
 		if f.name == name {
 			return &f
 		}
